@@ -487,7 +487,7 @@ func (h *Harness) Crash(n *Node, tag string) string {
 	img := filepath.Join(h.Root, "sandbox", fmt.Sprintf("image_%s_%s", n.Name, tag))
 	// all tasks are parked or durably blocked here; goleveldb goroutines are quiescent
 	if !h.Disk.StSnapDone || h.Disk.StSnapTo != img {
-		if err := CopyTree(n.WorkDir, img); err != nil {
+		if err := h.Disk.Snapshot(n.WorkDir, img); err != nil {
 			panic(err)
 		}
 	}
